@@ -32,7 +32,7 @@ def demo_target(d, meta):
     dest = None
     if m:
         dest = m.group(1)
-        dest = re.sub(r"^/tmp/wt-[^/]+/", "", dest.rstrip(";)'\""))
+        dest = re.sub(r"^/tmp/wt\d*-[^/]+/", "", dest.rstrip(";)'\""))
     else:
         m = re.search(r"(src/[\w./-]+?)/?[\s;)\"']", demo)
         if m:
